@@ -15,8 +15,8 @@ func init() { Registry["C19"] = runC19 }
 
 func runC19(p *core.Prog, r *core.Report) {
 	c := &ctx{p, r}
-	r.Explain = "Prime and pre-parameter generation: (R19.1) a candidate pair is sent on the prime channel only after q.ProbablyPrime, the Pocklington test on p, q.BitLen() == requested length − 1 and Validate() all took their true edge for the very (p, q) sent, and Validate itself accepts only when q is prime, 2q+1 == p and p is prime; (R19.2) GetRandomSafePrimesConcurrent defers, in this order of execution, cancel → WaitGroup.Wait → close(errCh) → close(primeCh); every worker calls Done exactly once, polls ctx.Done() at the head of every candidate iteration, sends at most one error and then returns, and the error channel has room for one error per worker; the collector returns an error on ctx.Done() and on any worker error; both pre-parameter producers send exactly once on buffered channels; (R19.3) the returned pre-parameters satisfy by value identity NTilde = P·Q with P,Q the SafePrime() of two distinct generated pairs, the stored P,Q are their Prime(), H1 = f² mod NTilde for a sampled unit f, H2 = H1^alpha mod NTilde, Beta = alpha⁻¹ mod (p·q), the Paillier key comes from an independent 2048-bit generator call; (R19.4) samplers return only values behind their loop-exit guard (try < bound; unit of Z_n; Jacobi = −1) and nil for nil/non-positive bounds."
-	r.Undec = "primality itself, exact bit lengths of products, promptness of cancellation, absence of goroutine leaks when the buffered prime channel fills, that h1 and h2 generate each other."
+	r.Explain = "Prime and pre-parameter generation: (R19.1) a candidate pair is sent on the prime channel only after q.ProbablyPrime, the Pocklington test on p, q.BitLen() == requested length − 1 and Validate() all took their true edge for the very (p, q) sent, and Validate itself accepts only when q is prime, 2q+1 == p and p is prime; (R19.2) GetRandomSafePrimesConcurrent defers, in this order of execution, cancel → WaitGroup.Wait → close(errCh) → close(primeCh); every worker calls Done exactly once, polls ctx.Done() at the head of every candidate iteration, sends at most one error and then returns, sends a prime only as an arm of a select that also watches ctx.Done() and returns on it (the collector stops receiving once it has enough), and the error channel has room for one error per worker; the collector returns an error on ctx.Done() and on any worker error; both pre-parameter producers send exactly once on buffered channels; (R19.3) the returned pre-parameters satisfy by value identity NTilde = P·Q with P,Q the SafePrime() of two distinct generated pairs, the stored P,Q are their Prime(), H1 = f² mod NTilde for a sampled unit f, H2 = H1^alpha mod NTilde, Beta = alpha⁻¹ mod (p·q), the Paillier key comes from an independent 2048-bit generator call; (R19.4) samplers return only values behind their loop-exit guard (try < bound; unit of Z_n; Jacobi = −1) and nil for nil/non-positive bounds."
+	r.Undec = "primality itself, exact bit lengths of products, promptness of cancellation (wall-clock), that h1 and h2 generate each other."
 	r.Assume = []string{"math/big.ProbablyPrime and Jacobi are correct", "context cancellation semantics of the standard library"}
 	c19Emission(c)
 	c19CancelJoin(c)
